@@ -250,6 +250,41 @@ def _exec_case(case):
                 break
         if xg1 is not None and not torch.equal(base.grad, xg1 * 2):
             out.fail(f"{tag}/accumulated-grad", f"input.grad after two identical backward passes is not twice the first (rank {rank})")
+    if not out.failures and case["seed"] % 2 == 1 and aq is not None and not case["frozen"] and not isinstance(fed, QTensor) and x.numel() > 0:
+        # calibration-aware training: the module is called on a batch, then on ANOTHER batch of another range (which updates its
+        # scales), and only then is the first call back-propagated (gradient accumulation, a module shared by two branches). The
+        # gradients of the first call are those of the first call alone: a twin that never sees the second batch gives them
+        import copy
+
+        twin = copy.deepcopy(model)
+        got = {}
+        for which, net in (("both", model), ("alone", twin)):
+            for p_ in net.parameters():
+                p_.grad = None
+            xa_ = (x.detach() * 0.7).requires_grad_(True)
+
+            def go():
+                with Calibration(streamline=False):
+                    ya = net(xa_)
+                    if which == "both":
+                        net(x.detach() * 3.0)
+                return ya
+
+            ya = cut(go)
+            if isinstance(ya, Raised):
+                return out.fail(f"{tag}/calibration-with-grad-raises:{ya.type}", ya.text)
+            rb = cut(lambda: ya.backward(gO))
+            if isinstance(rb, Raised):
+                return out.fail(f"{tag}/backward-after-later-forward-raises:{rb.type}", rb.text)
+            got[which] = {n: (None if p_.grad is None else p_.grad.detach().clone()) for n, p_ in net.named_parameters()}
+            got[which]["<input>"] = None if xa_.grad is None else xa_.grad.detach().clone()
+        out.klass.append("backward-after-a-later-forward")
+        for n, ga in got["alone"].items():
+            gb = got["both"].get(n)
+            if (ga is None) != (gb is None) or (ga is not None and not bool(((ga == gb) | (torch.isnan(ga) & torch.isnan(gb))).all())):
+                out.fail(f"{tag}/grad-changed-by-a-later-forward", f"{n}: the gradient of a call differs when the module is called on another batch (inside Calibration) before the backward "
+                                                                   f"(weights {case['wq']}, act {case['aq']}, rank {rank})")
+                break
     return out
 
 
